@@ -139,23 +139,23 @@ def generate(g: Gen):
             operands.append(ast.unparse(e))
     flat(u.value)
     for comp in list(SPEC_COMPONENTS) + ["set(preserve)"]:
-        g.oblige("table", f"safe-union-contains:{comp}", [], z3.BoolVal(comp in operands), u.lineno)
+        g.oblige_text("table", f"safe-union-contains:{comp}", comp in operands, u.lineno)
     # reaching definitions of every preserve= argument after the block (straight-line top level + loops: any later assignment to the
     # variable anywhere in the function other than the union is a second definition)
     stores = [n for n in ast.walk(fn) if isinstance(n, ast.Name) and isinstance(n.ctx, ast.Store) and n.id == aug_var]
     # allowed definitions: the union (safe branch) and, in the else branch of the same `if safe:`, the caller's set itself
     else_defs = [s_ for s_ in blk.orelse if isinstance(s_, ast.Assign) and ast.unparse(s_.targets[0]) == aug_var]
     else_ok = all(ast.unparse(s_.value) in ("preserve", "set(preserve)", "frozenset(preserve)") for s_ in else_defs)
-    g.oblige("dataflow", f"definitions-of-the-safe-set-variable:{aug_var}", [], z3.BoolVal(len(stores) == 1 + len(else_defs) and else_ok), u.lineno)
+    g.oblige_text("dataflow", f"definitions-of-the-safe-set-variable:{aug_var}", len(stores) == 1 + len(else_defs) and else_ok, u.lineno)
     calls = [n for n in ast.walk(fn) if isinstance(n, ast.Call) and any(k.arg == "preserve" for k in n.keywords) and n.lineno > blk.end_lineno]
     if len(calls) < 3:
         raise NotGenerated(f"only {len(calls)} calls with a preserve argument after the safe block")
     for c in calls:
         arg = next(k.value for k in c.keywords if k.arg == "preserve")
-        g.oblige("dataflow", f"preserve-argument-is-the-safe-set:{ast.unparse(c.func)}", [], z3.BoolVal(ast.unparse(arg) == aug_var), c.lineno)
+        g.oblige_text("dataflow", f"preserve-argument-is-the-safe-set:{ast.unparse(c.func)}", ast.unparse(arg) == aug_var, c.lineno)
     # when safe is False the same variable must be the caller's set: the variable is the parameter itself
     is_param = aug_var == "preserve" and any(a.arg == "preserve" for a in fn.args.kwonlyargs + fn.args.args)
-    g.oblige("dataflow", "without-safe-the-variable-is-the-callers-set", [], z3.BoolVal(bool(is_param or (else_defs and else_ok))), u.lineno)
+    g.oblige_text("dataflow", "without-safe-the-variable-is-the-callers-set", bool(is_param or (else_defs and else_ok)), u.lineno)
 
     # _multi_run_fixes forwards preserve to every rule that takes it
     mf, _ = find_def("main", "_multi_run_fixes")
@@ -170,9 +170,9 @@ def generate(g: Gen):
         if "preserve" in params:
             n_fw += 1
             kw = {k.arg: ast.unparse(k.value) for k in c.keywords}
-            g.oblige("dataflow", f"forwards-preserve:{mod}.{fname}", [], z3.BoolVal(kw.get("preserve") == "preserve"), c.lineno)
+            g.oblige_text("dataflow", f"forwards-preserve:{mod}.{fname}", kw.get("preserve") == "preserve", c.lineno)
     stores = [n for n in ast.walk(mf) if isinstance(n, ast.Name) and isinstance(n.ctx, ast.Store) and n.id == "preserve"]
-    g.oblige("dataflow", "_multi_run_fixes-does-not-rebind-preserve", [], z3.BoolVal(not stores), mf.lineno)
+    g.oblige_text("dataflow", "_multi_run_fixes-does-not-rebind-preserve", not stores, mf.lineno)
     if n_fw < 4:
         raise NotGenerated(f"only {n_fw} rules with a preserve parameter called from _multi_run_fixes")
     g.assumptions.add("set comprehension semantics and core.filter_nodes / parsing.iter_assignments are taken at face value (their results are the nodes the names say)")
